@@ -34,7 +34,10 @@ func H_C11_net() {
 	id := "C11.net"
 	third := nd.Choice("third", 2)
 	curK := nd.Choice("current", 3)
-	second := nd.Choice("second", 3)
+	second := 2 * nd.Choice("second", 2) // 0: one asset, 2: a second asset in warm-up
+	if nd.Thorough() {
+		second = nd.Choice("second3", 3)
+	}
 	stray := nd.Choice("stray", 2) // staking-denom coins sitting in the module account (e.g. auto-withdrawn rewards)
 	s := buildReb(third, curK, second)
 	e := s.E
